@@ -8,15 +8,15 @@ from sim import Config, var, W, R, P, A, N, D, RW
 PROP = "C19"
 LEVEL = "exploration"
 RULE = ("sequences of 2..6 back-to-back SDO client transfers (upload / download, sizes 1..2000 incl. every size 1..600 once per direction, "
-        "timeouts 5..500 ms, idle gaps) against a scripted reference server that is conforming, aborts / goes silent / answers late at step "
+        "timeouts 5..500 ms and 65..131 s at 1 kHz, 65535 s .. 2^32 ms at 10 Hz, idle gaps; one or two clients (CO_CSDO_N = 2), the other client holding an open transfer) against a scripted reference server that is conforming, aborts / goes silent / answers late at step "
         "k (k over every step of the transfer), answers exactly around the expiry of the timeout with the timer event served but not yet processed (either outcome, exactly once), or sends wrong-toggle, wrong-multiplexer, wrong-kind, oversized (one segment too many, expedited or announced size larger than the user buffer) or early-end responses; "
         "checked per transfer: exactly one completion callback with the right code and tick, request frames equal to the reference "
         "client's (command, size, toggle, last marking, data), user buffer content (exact-size buffer under ASan), busy refusal, and after "
         "completion: client idle, no client timer left (pool occupancy), the next transfer unaffected; non-trivial = sequence with >= 1 "
         "segmented transfer or >= 1 injected server deviation; distinct by script")
-ASSUMPTIONS = ["abort codes for locally detected protocol errors are not constrained (non-zero, exactly one callback)",
+ASSUMPTIONS = ["a timeout beyond the longest time the tick conversion supports (65535 s) is limited to 65535 s plus its milliseconds", "abort codes for locally detected protocol errors are not constrained (non-zero, exactly one callback)",
                "the upload buffer size equals the object size for conforming transfers", "processing follows each tick"]
-VARIANTS = ["asan"]
+VARIANTS = ["asan", "asan2"]
 
 TIMEOUT_CODE = 0x05040000
 
@@ -25,8 +25,16 @@ def mux(idx, sub):
     return bytes([idx & 0xFF, idx >> 8, sub])
 
 
+HUGE = [100, 500, 65535000, 65535900, 65536000, 65536100, 65537000, 70000000, 131072100, 4294967200]
+
+
+def ticks_of(ms, freq):
+    """The 32-bit timeout in ms, limited to the longest time the conversion supports (65535 s plus the milliseconds)."""
+    return min(ms // 1000, 65535) * freq + (ms % 1000) * freq // 1000
+
+
 class Transfer:
-    def __init__(self, rng, size=None):
+    def __init__(self, rng, size=None, huge=False):
         self.up = rng.random() < 0.5
         self.idx, self.sub = rng.choice([0x2000, 0x2001, 0x6000]), rng.randrange(4)
         self.size = size if size else rng.choice([1, 2, 3, 4, 5, 6, 7, 8, 13, 14, 15, 100, 255, 256, 257, 263, 511, 889, 2000, rng.randint(1, 600)])
@@ -34,10 +42,19 @@ class Transfer:
         self.timeout = rng.choice([5, 10, 50, 100, 500])
         if self.size <= 14 and rng.random() < 0.04:
             self.timeout = rng.choice([65535, 65536, 70000, 131072 + 5])     # the API takes a 32-bit timeout in ms
+        self.tticks = self.timeout          # 1 kHz timer: one tick per ms
+        if huge:
+            self.size = size if size else rng.choice([1, 4, 5, 8, 14])
+            self.data = gen.rand_bytes(rng, self.size)
+            self.timeout = rng.choice(HUGE)
+            self.tticks = ticks_of(self.timeout, 10)
+        self.cl = 0
         nsteps = 1 if self.size <= 4 else 1 + (self.size + 6) // 7
         self.nsteps = nsteps
         self.behaviour = rng.choice(["ok"] * 6 + ["abort", "abort", "silent", "late", "toggle", "mux", "kind", "early", "oversize", "race", "race", "nmtreset", "nosize", "stale-answer", "stopped"])
-        self.race_n = self.timeout + rng.choice([-1, 0, 0, 0, 1, 3])
+        if huge:
+            self.behaviour = rng.choice(["silent", "silent", "late", "ok", "abort", "stopped", "race"])
+        self.race_n = self.tticks + rng.choice([-1, 0, 0, 0, 1, 3])
         self.abort_code = rng.choice([0x06020000, 0x05040000, 0x05040000, 0x06010002, 0x08000000, 0x06070010, 0x05030000, 0x00000001, 0xFFFFFFFF])
         self.k = rng.randrange(nsteps)
         if self.behaviour == "nosize" and not (self.up and self.size <= 4):
@@ -52,17 +69,27 @@ class Transfer:
             self.k = max(1, self.k)
 
 
-def run_sequence(res, exe, rng, first, forced=None):
+def run_sequence(res, exe, rng, first, forced=None, huge=False, two=False):
     srv = rng.choice([2, 5, 100])
+    srv2 = rng.choice([3, 6, 101])
     nid = rng.choice([1, 9])
-    cfg = Config(nodeid=nid, freq=1000, tmrnum=rng.choice([1, 1, 4, 16]))       # 1: the pool holds exactly the one timer the client needs
+    bgc = rng.randrange(2) if (two and rng.random() < 0.6) else None      # a transfer on the other client stays open in the background
+    cfg = Config(nodeid=nid, freq=10 if huge else 1000, tmrnum=rng.choice([2, 4, 16] if bgc is not None else [1, 1, 4, 16]))       # 1: the pool holds exactly the one timer the client needs
     gen.add_mandatory(cfg, hb=0, ssdo=1, ssdo_rw=False)
     gen.add_csdo(cfg, 0, server=srv)
+    if two:
+        gen.add_csdo(cfg, 1, server=srv2)
     cfg.finalize()
     sim = S.Sim(exe, cfg)
-    TX, RX = 0x600 + srv, 0x580 + srv
+    TXs, RXs = [0x600 + srv, 0x600 + srv2], [0x580 + srv, 0x580 + srv2]
+    TX, RX = TXs[0], RXs[0]
+    cl = 0
+    bg = None
     script = []
-    ntr = forced if forced else [Transfer(rng) for _ in range(rng.randint(2, 6))]
+    ntr = forced if forced else [Transfer(rng, huge=huge) for _ in range(rng.randint(2, 6) if not huge else rng.randint(1, 3))]
+    if two and not forced:
+        for t_ in ntr:
+            t_.cl = (1 - bgc) if bgc is not None else rng.randrange(2)
     interesting = False
 
     def fail(key, msg, exp=None, obs=None):
@@ -80,12 +107,30 @@ def run_sequence(res, exe, rng, first, forced=None):
             out.append((t, cid, d))
         return out
 
-    def callbacks(evs):
-        return [(int(c[1]), int(c[2], 16), int(c[3]), int(c[4], 16), int(c[5])) for c in S.cbs(evs, "csdo")]
+    foreign = []
+
+    def callbacks(evs, every=False):
+        out = [(int(c[1]), int(c[2], 16), int(c[3]), int(c[4], 16), int(c[5])) for c in S.cbs(evs, "csdo")]
+        if not every:
+            foreign.extend(c for c in out if c[0] != cl)
+            out = [c for c in out if c[0] == cl]
+        return out
 
     try:
+        if bgc is not None:
+            # the background transfer: a segmented upload whose server stays silent for an hour
+            r, evs = sim.ret_ev("csdoup %d 2002 1 20 3600000" % bgc)
+            if r != ["0"] or [(c, d) for (_, c, d) in frames(evs)] != [(TXs[bgc], bytes([0x40, 0x02, 0x20, 0x01, 0, 0, 0, 0]))]:
+                return fail("request-frame/initiate", "background upload on client %d: returned %r, frames %r" % (bgc, r, frames(evs)))
+            evs = sim.rx(RXs[bgc], bytes([0x41, 0x02, 0x20, 0x01, 20, 0, 0, 0]))
+            if [(c, d) for (_, c, d) in frames(evs)] != [(TXs[bgc], bytes([0x60]) + bytes(7))] or callbacks(evs, True):
+                return fail("request-frame/segment-up", "background upload on client %d: after the initiate answer frames %r callbacks %r" % (bgc, frames(evs), callbacks(evs, True)))
+            bg = bgc
+            script.append("client %d: segmented upload left open (server silent, timeout 1 h)" % bgc)
         for ti, tr in enumerate(ntr):
-            desc = "%s %04x:%d %d bytes timeout %d server=%s@%d" % ("upload" if tr.up else "download", tr.idx, tr.sub, tr.size, tr.timeout, tr.behaviour, tr.k)
+            cl = tr.cl
+            TX, RX = TXs[cl], RXs[cl]
+            desc = "%s%s %04x:%d %d bytes timeout %d server=%s@%d" % ("client %d " % cl if two else "", "upload" if tr.up else "download", tr.idx, tr.sub, tr.size, tr.timeout, tr.behaviour, tr.k)
             script.append(desc)
             if tr.size > 4 or tr.behaviour != "ok":
                 interesting = True
@@ -94,24 +139,24 @@ def run_sequence(res, exe, rng, first, forced=None):
             m3 = mux(tr.idx, tr.sub)
             # in a quarter of the transfers the application starts a timer of its own inside the completion callback (a retry delay):
             # it must run - the finished transfer may not take anything with it (needs a pool slot: not with the one-timer pool)
-            cbtimer = cfg.tmrnum > 1 and rng.random() < 0.25
+            cbtimer = cfg.tmrnum > (2 if bg is not None else 1) and rng.random() < 0.25 and not huge
             if cbtimer:
                 sim.cmd("csdocbtimer 20 7")
             # chained requests: in one transfer of ten the completion callback asks for the next transfer on the same client.  The
             # client may refuse it (it is still busy while it informs the application) or accept it - an accepted request is a
             # transfer like any other: exactly one callback (here: its timeout, nobody answers), nothing left behind
-            cbreq = (not cbtimer) and rng.random() < 0.1
+            cbreq = (not cbtimer) and rng.random() < 0.1 and not huge and not two
             chained[0], chained[1] = cbreq, 0
             if cbreq:
                 sim.cmd("csdocbreq 30")
             if tr.up:
-                r, evs = sim.ret_ev("csdoup 0 %x %x %d %d" % (tr.idx, tr.sub, tr.size, tr.timeout))
+                r, evs = sim.ret_ev(("csdoup %d " % cl) + "%x %x %d %d" % (tr.idx, tr.sub, tr.size, tr.timeout))
             else:
-                r, evs = sim.ret_ev("csdodown 0 %x %x %s %d" % (tr.idx, tr.sub, tr.data.hex(), tr.timeout))
+                r, evs = sim.ret_ev(("csdodown %d " % cl) + "%x %x %s %d" % (tr.idx, tr.sub, tr.data.hex(), tr.timeout))
             if r != ["0"]:
                 return fail("request-refused", desc + ": request returned %r on an idle client" % r)
             # busy client refuses further requests
-            r2 = sim.ret("csdoup 0 2000 0 4 10")
+            r2 = sim.ret("csdoup %d 2000 0 4 10" % cl)
             if r2 != [str(S.ERR["SDO_BUSY"])]:
                 return fail("busy", desc + ": second request on a busy client returned %r" % r2)
             fr = frames(evs)
@@ -169,11 +214,21 @@ def run_sequence(res, exe, rng, first, forced=None):
                 if beh == "nmtreset":
                     # reset communication while the transfer runs: it ends there - exactly one callback with an abort code, nothing left
                     evs = sim.rx(0, bytes([130, nid]))
-                    cb = callbacks(evs)
+                    allcb = callbacks(evs, True)
+                    cb = [c for c in allcb if c[0] == cl]
+                    if bg is not None:
+                        # the transfer left open on the other client ends as well: exactly one callback for it, with an abort code
+                        ob = [c for c in allcb if c[0] == bg]
+                        if len(ob) != 1 or ob[0][3] == 0 or (ob[0][1], ob[0][2]) != (0x2002, 1):
+                            return fail("callback/reset-during-transfer", desc + ": reset communication: callbacks for the transfer open on client %d: %r, reference exactly one with an abort code" % (bg, ob))
+                        res.counters["resets_with_two_busy_clients"] += 1
+                        bg = None
+                    elif len(allcb) != len(cb):
+                        return fail("other-client/callback", desc + ": reset communication: callbacks %r" % allcb)
                     fr = [x for x in frames(evs) if x[1] != 0x700 + nid]
                     if len(cb) != 1 or cb[0][3] == 0 or cb[0][1] != tr.idx or cb[0][2] != tr.sub:
                         return fail("callback/reset-during-transfer", desc + ": reset communication at step %d: callbacks %r, reference exactly one with an abort code" % (step, cb))
-                    if any(c != TX for (_, c, d) in fr):
+                    if any(c not in TXs for (_, c, d) in fr):
                         return fail("request-frame/reset-during-transfer", desc + ": frames at the reset %r" % [("%x" % c, d.hex()) for _, c, d in fr])
                     res.counters["resets_during_transfer"] += 1
                     done = cb[0][3]
@@ -182,11 +237,11 @@ def run_sequence(res, exe, rng, first, forced=None):
                     # the node is stopped while the transfer waits for its answer: the timeout still completes the transfer (once), but
                     # a stopped node sends nothing except heartbeats - no abort frame
                     sim.rx(0, bytes([2, nid]))
-                    evs = sim.cmd("tick %d" % (tr.timeout + 3))
+                    evs = sim.cmd("tick %d" % (tr.tticks + 3))
                     cb, fr = callbacks(evs), frames(evs)
                     sim.rx(0, bytes([128, nid]))
-                    if [(c[3], c[4]) for c in cb] != [(TIMEOUT_CODE, last_req_tick + tr.timeout)]:
-                        return fail("timeout/callback-stopped", desc + ": node stopped at step %d: callbacks %r, reference one with 0504 0000h at tick %d" % (step, cb, last_req_tick + tr.timeout))
+                    if [(c[3], c[4]) for c in cb] != [(TIMEOUT_CODE, last_req_tick + tr.tticks)]:
+                        return fail("timeout/callback-stopped", desc + ": node stopped at step %d: callbacks %r, reference one with 0504 0000h at tick %d" % (step, cb, last_req_tick + tr.tticks))
                     # (whether the abort frame may still go out in STOPPED is the business of C09, which checks it)
                     if [x for x in fr if not (x[1] == TX and x[2] == bytes([0x80]) + m3 + TIMEOUT_CODE.to_bytes(4, "little"))]:
                         return fail("timeout/frame-in-stopped", desc + ": the stopped node transmitted %r" % [("%x" % c, d.hex()) for _, c, d in fr])
@@ -262,14 +317,14 @@ def run_sequence(res, exe, rng, first, forced=None):
                     expect_code = "nonzero" if surplus else "any"
                 if beh in ("silent", "late"):
                     # no answer in time: timeout expected exactly tr.timeout ticks after the last request frame
-                    evs = sim.cmd("tick %d" % (tr.timeout + 3))
+                    evs = sim.cmd("tick %d" % (tr.tticks + 3))
                     fr = frames(evs)
                     cb = callbacks(evs)
-                    want_fr = [(last_req_tick + tr.timeout, TX, bytes([0x80]) + m3 + TIMEOUT_CODE.to_bytes(4, "little"))]
+                    want_fr = [(last_req_tick + tr.tticks, TX, bytes([0x80]) + m3 + TIMEOUT_CODE.to_bytes(4, "little"))]
                     if fr != want_fr:
                         return fail("timeout/frame", desc + ": bus frames %r, reference abort 0504 0000h at tick %d" % ([(t, "%x" % c, d.hex()) for t, c, d in fr], want_fr[0][0]))
-                    if [(c[3], c[4]) for c in cb] != [(TIMEOUT_CODE, last_req_tick + tr.timeout)]:
-                        return fail("timeout/callback", desc + ": callbacks %r, reference one with 0504 0000h at tick %d" % (cb, last_req_tick + tr.timeout))
+                    if [(c[3], c[4]) for c in cb] != [(TIMEOUT_CODE, last_req_tick + tr.tticks)]:
+                        return fail("timeout/callback", desc + ": callbacks %r, reference one with 0504 0000h at tick %d" % (cb, last_req_tick + tr.tticks))
                     if beh == "late":
                         evs = sim.rx(RX, resp)
                         if frames(evs) or callbacks(evs):
@@ -290,7 +345,7 @@ def run_sequence(res, exe, rng, first, forced=None):
                 if beh == "race" and any(c[3] == TIMEOUT_CODE for c in cb):
                     if len(cb) != 1:
                         return fail("callback-count/race", desc + ": answer at the expiry of the timeout (svc %d): callbacks %r, reference exactly one" % (tr.race_n, cb))
-                    if tr.race_n < tr.timeout:
+                    if tr.race_n < tr.tticks:
                         return fail("timeout/early", desc + ": answer %d ticks after the request was met with a timeout" % tr.race_n)
                     if (TX, bytes([0x80]) + m3 + TIMEOUT_CODE.to_bytes(4, "little")) not in [(c, d) for (_, c, d) in fr] or any(c != TX for (_, c, d) in fr):
                         return fail("timeout/frame", desc + ": timeout at the race step without abort frame: %r" % [("%x" % c, d.hex()) for _, c, d in fr])
@@ -346,13 +401,13 @@ def run_sequence(res, exe, rng, first, forced=None):
             # after completion -------------------------------------------------------------
             if done is None:
                 # 'any' behaviours may leave the transfer open until its timeout
-                evs = sim.cmd("tick %d" % (tr.timeout + 3))
+                evs = sim.cmd("tick %d" % (tr.tticks + 3))
                 cb = callbacks(evs)
                 if len(cb) != 1:
                     return fail("callback-count", desc + ": %d callbacks until the timeout, reference 1" % len(cb))
                 done = cb[0][3]
             if tr.up and done == 0 and tr.behaviour == "ok":
-                buf = bytes.fromhex(sim.ret("csdobuf 0")[0].replace("-", ""))
+                buf = bytes.fromhex(sim.ret("csdobuf %d" % cl)[0].replace("-", ""))
                 if buf != tr.data:
                     k = next((i for i in range(len(buf)) if buf[i] != tr.data[i]), len(buf))
                     return fail("buffer", desc + ": user buffer differs from the server's bytes at offset %d" % k, tr.data.hex()[:80], buf.hex()[:80])
@@ -371,11 +426,15 @@ def run_sequence(res, exe, rng, first, forced=None):
                     if len(cb) != 1 or cb[0][3] != TIMEOUT_CODE:
                         return fail("callback/chained-request", desc + ": the request issued inside the completion callback was accepted; callbacks until its timeout: %r, reference exactly one with 0504 0000h" % (cb,))
             st = sim.state()
-            if st["csdo0"].split(",")[0] != "1":
-                return fail("not-idle", desc + ": client state %s after completion" % st["csdo0"])
+            if st["csdo%d" % cl].split(",")[0] != "1":
+                return fail("not-idle", desc + ": client state %s after completion" % st["csdo%d" % cl])
+            if bg is not None and st["csdo%d" % bg].split(",")[0] == "1":
+                return fail("other-client/ended", desc + ": the transfer left open on client %d is gone (state %s), callbacks for it: %r" % (bg, st["csdo%d" % bg], foreign))
+            if foreign:
+                return fail("other-client/callback", desc + ": completion callbacks for the other client: %r" % foreign)
             occ = sim.occ()
-            if occ["csdo"] != 0:
-                return fail("timer-left", desc + ": %d SDO client timer(s) still running after completion" % occ["csdo"])
+            if occ["csdo"] != (1 if bg is not None else 0):
+                return fail("timer-left", desc + ": %d SDO client timer(s) in the pool after completion, reference %d" % (occ["csdo"], 1 if bg is not None else 0))
             if cbtimer:
                 if occ["app"] != 1:
                     return fail("callback-timer/deleted", desc + ": the timer the application started in the completion callback is gone (%d application timers in the pool)" % occ["app"])
@@ -385,7 +444,7 @@ def run_sequence(res, exe, rng, first, forced=None):
                         len(S.cbs(evs, "apptmr")), callbacks(evs), frames(evs)))
                 res.counters["timers_started_in_completion_callback"] += 1
             # idle gap: nothing may happen (no late second callback, no abort frame)
-            gap = rng.choice([0, 1, 3, tr.timeout, tr.timeout + 2])
+            gap = rng.choice([0, 1, 3, tr.tticks, tr.tticks + 2]) if tr.tticks < 200000 else rng.choice([0, 1, 3])
             if gap:
                 evs = sim.cmd("tick %d" % gap)
                 if callbacks(evs) or frames(evs):
@@ -408,6 +467,8 @@ def plan(tier, seed):
     items = [("seq", i, 30 if q else 300) for i in range(48 if q else 170)]
     items += [("sizes", i, 0) for i in range(0, 600, 40 if q else 10)]
     items += [("faultk", i, 0) for i in range(8 if q else 32)]
+    items += [("two", i, 25 if q else 250) for i in range(16 if q else 64)]
+    items += [("huge", i, 1 if q else 4) for i in range(16 if q else 64)]
     return items
 
 
@@ -419,6 +480,19 @@ def work(item, ctx):
             rng = random.Random(F.seed_for(ctx["seed"], "C19", item[1], h))
             if not run_sequence(res, exe, rng, item[1] == 0 and h == 0):
                 break
+    elif item[0] == "two":
+        # two SDO clients (CO_CSDO_N = 2): transfers on either client, in most sequences while a transfer on the other client stays open
+        for h in range(item[2]):
+            rng = random.Random(F.seed_for(ctx["seed"], "C19two", item[1], h))
+            if not run_sequence(res, ctx["exes"]["asan2"], rng, False, two=True):
+                break
+    elif item[0] == "huge":
+        # timeouts around and beyond the longest supported time (65535 s), 10 Hz timer: up to 4.3e7 ticks per silent step
+        for h in range(item[2]):
+            rng = random.Random(F.seed_for(ctx["seed"], "C19huge", item[1], h))
+            if not run_sequence(res, exe, rng, False, huge=True):
+                break
+            res.counters["huge_timeout_sequences"] += 1
     elif item[0] == "sizes":
         step = 40 if ctx["tier"] == "quick" else 10
         rng = random.Random(F.seed_for(ctx["seed"], "C19s", item[1]))
@@ -456,6 +530,8 @@ def finish(total, tier):
     p = []
     if c["transfers"] < 2000 or c["beh_silent"] < 20 or c["beh_abort"] < 20:
         p.append("too few transfers / deviations: %r" % dict(c))
+    if c["resets_with_two_busy_clients"] < 10 or c["huge_timeout_sequences"] < 8:
+        p.append("too few resets with two busy clients (%d) / sequences with huge timeouts (%d)" % (c["resets_with_two_busy_clients"], c["huge_timeout_sequences"]))
     return p
 
 
